@@ -45,6 +45,11 @@ SCENARIOS = {
     'four_drop': dict(callers=[('read', 'm:p1'), ('read', 'm:p1'), ('read', 'm:p2'), ('bar', 'm:p2')], drop=True),
     'late_callers_drop': dict(callers=[('read', 'm:p1'), ('read', 'm:p2'), ('read', 'm:p1')], drop=True, anytime=True),
     'user_stream': dict(callers=[('read', 'm:p1'), ('read', 'm:p1')], user=True, streaming=True),
+    # experimental requests answered by an experimental (non-error) reply: only one at a time
+    'unknown_reply': dict(callers=[('read', 'm:p1'), ('foo', 'm:p1')], xreply=True),
+    'two_unknown': dict(callers=[('foo', 'm:p1'), ('bar', 'm:p2'), ('read', 'm:p1')], xreply=True),
+    # a request that timed out must not block a later request with the same key
+    'timeout_then_same': dict(callers=[('read', 'm:p1'), ('read', 'm:p1', 11.5)], ignore=[1]),
 }
 T0 = 1000000.0
 
